@@ -12,6 +12,8 @@ import subprocess
 import time
 
 from . import rustscan as rs
+import threading
+_AUTO_LOCK = threading.Lock()
 
 VERIF = os.path.dirname(os.path.dirname(os.path.abspath(__file__)))
 REPO = os.environ.get("VERIF_REPO", "/repo")
@@ -196,7 +198,7 @@ def run_kani_unit(name, workdir, tier, prop):
                 text, line = extract_macro_body(REPO, e["file"], e["macro_body"])
             else:
                 text, line = extract_item(REPO, e["file"], e["sel"], within=e.get("within"), with_attrs=bool(e.get("with_attrs")))
-            for a, b in e.get("replace", []):
+            for a, b in e.get("replace", []) + cfg.get("replace_all", []):
                 text = text.replace(a, b)
             if e.get("drop_attrs"):
                 # T3: derive / serde attributes have no meaning in the stub crate (no proc macros there)
@@ -263,9 +265,14 @@ def run_kani_unit(name, workdir, tier, prop):
                         text, line = extract_item(REPO, e["file"], "fn " + nm)
                     except RuntimeError:
                         continue
-                    with open(os.path.join(dst, cfg["extract"][-1]["out"]), "a") as f:
-                        f.write("\n// auto-included helper (not listed in unit.json): %s:%d\n%s\n" % (e["file"], line, text))
-                    out.setdefault("auto_included", []).append("%s::%s" % (e["file"], nm))
+                    for a, b in cfg.get("replace_all", []):
+                        text = text.replace(a, b)
+                    with _AUTO_LOCK:   # harnesses run in parallel threads and share the crate template
+                        tag = "%s::%s" % (e["file"], nm)
+                        if tag not in out.setdefault("auto_included", []):
+                            with open(os.path.join(dst, cfg["extract"][-1]["out"]), "a") as f:
+                                f.write("\n// auto-included helper (not listed in unit.json): %s:%d\n%s\n" % (e["file"], line, text))
+                            out["auto_included"].append(tag)
                     added = True
                     break
             if not added:
